@@ -246,6 +246,17 @@ def _opt_is_some_and(ctx, o, clos):
     return b_and(c, v)
 
 
+@model(r'^std::option::Option::<.*>::is_none_or::<.*>$')
+def _opt_is_none_or(ctx, o, clos):
+    c = opt_is_some(o)
+    if c is False:
+        return True
+    v = call_under(ctx, c, clos, [opt_val(o)])
+    if v is None:
+        return b_not(c)
+    return b_or(b_not(c), v)
+
+
 @model(r'^std::option::Option::<.*>::map::<.*>$')
 def _opt_map(ctx, o, clos):
     c = opt_is_some(o)
@@ -664,6 +675,10 @@ def struct_eq(ctx, a, b):
         return a.s == b.s
     if hasattr(a, 'eq_with'):
         return a.eq_with(b, ctx)
+    if hasattr(a, 'eq_model'):
+        return a.eq_model(ctx, b)
+    if hasattr(b, 'eq_model'):
+        return b.eq_model(ctx, a)
     raise Unsupported('struct_eq of %r / %r' % (type(a).__name__, type(b).__name__))
 
 
@@ -885,6 +900,22 @@ def _slice_to_vec(ctx, p):
     return Seq(s.ents[a:b])
 
 
+@model(r'^<std::vec::Vec<.*> as std::ops::Index<std::ops::Range(From)?<usize>>>::index$')
+def _vec_index_range(ctx, p, r):
+    return _slice_index_range(ctx, p, r)
+
+
+@model(r'^core::slice::<impl \[.*\]>::starts_with$')
+def _slice_starts_with(ctx, p, q):
+    s, a, b = slice_window(ctx, p)
+    t, c, d = slice_window(ctx, q)
+    if not (s.dense() and t.dense()):
+        raise Unsupported('starts_with on a sparse sequence')
+    if d - c > b - a:
+        return False
+    return b_and(*[struct_eq(ctx, s.ents[a + k][1], t.ents[c + k][1]) for k in range(d - c)])
+
+
 @model(r'^<\[.*\] as std::ops::Index<std::ops::Range(From)?<usize>>>::index$')
 def _slice_index_range(ctx, p, r):
     ex = ctx.ex
@@ -930,6 +961,11 @@ def _vec_into_iter(ctx, v):
     return IterV(v.ents)
 
 
+@model(r'^<&(mut )?\[.*\] as std::iter::IntoIterator>::into_iter$')
+def _sliceref_into_iter(ctx, p):
+    return IterV(_entries_of_slice(ctx, p, True))
+
+
 @model(r'^<&std::vec::Vec<.*> as std::iter::IntoIterator>::into_iter$')
 def _vecref_into_iter(ctx, p):
     return IterV(_entries_of_slice(ctx, p, True))
@@ -946,7 +982,7 @@ def _into_iter_identity(ctx, v):
         return IterV(tuple((True, x) for x in v))
     if re.match(r'^<std::vec::Vec<', ctx.callee) and isinstance(v, Seq):
         return IterV(v.ents)
-    if re.match(r'^<&(mut )?std::vec::Vec<', ctx.callee):
+    if re.match(r'^<&(mut )?std::vec::Vec<', ctx.callee) or re.match(r'^<&(mut )?\[', ctx.callee):
         return IterV(_entries_of_slice(ctx, v, True))
     if isinstance(v, (IterV, tuple)) or hasattr(v, 'is_iterator'):
         return v
